@@ -37,7 +37,7 @@ pub const DEF: CheckDef = CheckDef {
     id: "C15",
     run,
     technique: "bounded-exhaustive enumeration of statement records (field alphabets, all records with <= d non-plain fields) for the CSV, Camt053 and Viseca importers; differential oracle: importer-built syntax tree versus okane's own parser applied to the text printed by the real ImportCmd::run; violating cases are reduced to their smallest violating sub-set of non-plain fields, which names the signature",
-    rule: "case = (shape, precision, record). 15 shapes: csv-basic (index columns, liability, code+payee split by a rewrite rule, note, commodity column, balance), csv-credit-debit (label columns, tab delimiter, a 50-column account name so that the amount column overflows), csv-multi (rate, secondary amount/commodity, charge, conversion mode), csv-template (payee = '{category} - {note}', new_to_old), camt-<source> for the 7 text elements a rewrite rule can copy into the payee (creditor, debtor, ultimate creditor/debtor name, remittance info, additional transaction/entry info) each with AcctSvcrRef as code and booking date != value date, camt-entry-only (no TxDtls), camt-numeric (amounts, currency, TxAmt+CcyXchg, charges, opening/closing balance), viseca-basic, viseca-fx. Text alphabet (21): plain, semicolon, lparen, rparen, star, bang, digit-date, double-space, tab, leading-blank, trailing-blank, newline, newline-indent (an indented posting line), newline-date (a dated header line), cr, word-tag, key-value, cjk, empty, equals-at, long. Numeric alphabet: plain, 1,234.50, -0.5, CHF 12.00, $1.46, .02, 0, 12.345, and absent/present for optional columns (Viseca: plain, 1'234.50, .02, 0, 5, 1.2.3, 12.345). Commodity alphabet: plain, empty, $, 'US D', BRK.B, 'A;B'. CSV amount/credit/debit/balance cells of csv-basic and csv-credit-debit additionally take the sign placements -$12.50, $-12.50, $-1,234.50, USD -20, -USD 20, -20 USD and are compared with an independent exact reading of the cell (sign rule of the shape applied). The configured operator of the charge-printing shapes (csv-multi, csv-template, camt-entry-only, camt-numeric, viseca-fx) takes plain, trailing newline, blank-padded, inner double blank, ';', inner newline. Every statement carries the tested record followed by one plain anchor record. Precision of CHF/USD/EUR/VYM in {none,2,4}. ALL records with <= 2 (quick) / <= 3 (thorough) non-plain fields. The four CSV shapes also carry a row choice: a date-less row (all cells empty but the payee) before / between / after the two records, which must not change the number of transactions. Anchor independence: the transaction (tree and printed text) of the plain anchor record must be identical to the one of the statement whose tested record is all plain (same configuration and statement-level fields); every record with one non-plain field less is also run with the file order of the two records swapped. Plus the layout-boundary family: for one CSV, one Camt053 and one Viseca shape the configured account and the rewrite (counter) account (cleared and pending) take every display width 1..=64 (ASCII; CSV also names with wide CJK characters; thorough: full 64x64 product for CSV) x 4-5 amount spellings of different printed widths and both signs x precision {none,2,4} x with/without running balance. states = statements imported (incl. minimisation re-runs), transitions = transactions compared field by field",
+    rule: "case = (shape, precision, record). 15 shapes: csv-basic (index columns, liability, code+payee split by a rewrite rule, note, commodity column, balance), csv-credit-debit (label columns, tab delimiter, a 50-column account name so that the amount column overflows), csv-multi (rate, secondary amount/commodity, charge, conversion mode), csv-template (payee = '{category} - {note}', new_to_old), camt-<source> for the 7 text elements a rewrite rule can copy into the payee (creditor, debtor, ultimate creditor/debtor name, remittance info, additional transaction/entry info) each with AcctSvcrRef as code and booking date != value date, camt-entry-only (no TxDtls), camt-numeric (amounts, currency, TxAmt+CcyXchg, charges, opening/closing balance), viseca-basic, viseca-fx. Text alphabet (21): plain, semicolon, lparen, rparen, star, bang, digit-date, double-space, tab, leading-blank, trailing-blank, newline, newline-indent (an indented posting line), newline-date (a dated header line), cr, word-tag, key-value, cjk, empty, equals-at, long. Numeric alphabet: plain, 1,234.50, -0.5, CHF 12.00, $1.46, .02, 0, 12.345, and absent/present for optional columns (Viseca: plain, 1'234.50, .02, 0, 5, 1.2.3, 12.345). Commodity alphabet: plain, empty, $, 'US D', BRK.B, 'A;B'. CSV amount/credit/debit/balance cells of csv-basic and csv-credit-debit additionally take the sign placements -$12.50, $-12.50, $-1,234.50, USD -20, -USD 20, -20 USD and are compared with an independent exact reading of the cell (sign rule of the shape applied). The configured operator of the charge-printing shapes (csv-multi, csv-template, camt-entry-only, camt-numeric, viseca-fx) takes plain, trailing newline, blank-padded, inner double blank, ';', inner newline. Every statement carries the tested record followed by one plain anchor record. Precision of CHF/USD/EUR/VYM in {none,2,4}. ALL records with <= 2 (quick) / <= 3 (thorough) non-plain fields. The four CSV shapes also carry a row choice: a date-less row (all cells empty but the payee) before / between / after the two records, which must not change the number of transactions. Anchor independence: the transaction (tree and printed text) of the plain anchor record must be identical to the one of the statement whose tested record is all plain (same configuration and statement-level fields); every record with one non-plain field less is also run with the file order of the two records swapped. Text fields also take Unicode white space at either end (U+3000 before / after, U+00A0 after, a note line made of U+00A0); the operator also U+3000/U+00A0 padding. Multi-statement family: Camt053 documents with 0..=3 Stmt elements and 0..=4 (thorough 5) plain entries distributed over the statements in every way x with/without opening balances x precision {none,2}: one transaction per entry (plus one per non-empty statement with an opening balance) in document order (record-count, record-sequence) and the usual round trip; documents okane rejects (no Stmt, a Stmt without Ntry) are DON'T-CARE. Plus the layout-boundary family: for one CSV, one Camt053 and one Viseca shape the configured account and the rewrite (counter) account (cleared and pending) take every display width 1..=64 (ASCII; CSV also names with wide CJK characters; thorough: full 64x64 product for CSV) x 4-5 amount spellings of different printed widths and both signs x precision {none,2,4} x with/without running balance. states = statements imported (incl. minimisation re-runs), transitions = transactions compared field by field",
     assumptions: &[
         "the tree is built in the harness by the same public calls as ImportCmd::run (load_from_yaml, ConfigSet::select, import::import, Txn::to_double_entry) on the same scratch files, reading the file as UTF-8 bytes without encoding_rs_io (identical for the BOM-less UTF-8 statements generated here)",
         "text that the importer trims / splits / rejects before building the tree is not judged (tree vs re-read text only); records the importer rejects are DON'T-CARE",
@@ -90,6 +90,11 @@ const TEXT_KINDS: &[(&str, &str)] = &[
     ("empty", ""),
     ("equals-at", "x = 1 @ y"),
     ("long", "A rather long description that goes well beyond the forty-eight columns of the amount column"),
+    // Unicode white space at either end (U+3000 IDEOGRAPHIC SPACE, U+00A0 NO-BREAK SPACE), and a line made of it
+    ("leading-wide-blank", "\u{3000}lead"),
+    ("trailing-wide-blank", "trail\u{3000}\u{3000}"),
+    ("trailing-nbsp", "trail\u{a0}"),
+    ("nbsp-line", "memo\n\u{a0}"),
 ];
 
 const NUM_KINDS: &[(&str, &str)] = &[
@@ -128,6 +133,7 @@ const OPERATOR_KINDS: &[(&str, &str)] = &[
     ("double-blank", "Okane  Bank (fee)"),
     ("semicolon", "Okane Bank; fees"),
     ("inner-newline", "Okane Bank\n(fee)"),
+    ("wide-blank-padded", "\u{3000}Okane Bank (fee)\u{a0}"),
 ];
 
 const COMMODITY_KINDS: &[(&str, &str)] = &[("empty", ""), ("symbol", "$"), ("space", "US D"), ("dot", "BRK.B"), ("semicolon", "A;B")];
@@ -360,6 +366,8 @@ struct Rendered {
     expect: Vec<Expect>,
     /// index (import order) of the transaction of the plain anchor record; None in the layout family
     anchor_txn: Option<usize>,
+    /// payees of the transactions in import order, when the family knows them (multi-statement documents)
+    payees: Option<Vec<String>>,
 }
 
 /// One number of the built tree that is dictated by a statement cell.
@@ -483,7 +491,7 @@ fn render(shape: &Shape, prec: Option<u8>, v: &Vals, swap: bool) -> Rendered {
             if let Some(b) = v[5].and_then(cell_value) {
                 expect.push(Expect { txn: t_idx, source: true, balance: true, value: b, why: format!("balance cell {:?}", g(5)) });
             }
-            Rendered { config, statement: st, ext: "csv", records: 2, expect, anchor_txn: Some(a_idx) }
+            Rendered { config, statement: st, ext: "csv", records: 2, expect, anchor_txn: Some(a_idx), payees: None }
         }
         Kind::CsvCreditDebit => {
             let config = format!(
@@ -512,7 +520,7 @@ fn render(shape: &Shape, prec: Option<u8>, v: &Vals, swap: bool) -> Rendered {
             if let Some(b) = v[2].and_then(cell_value) {
                 expect.push(Expect { txn: t_idx, source: true, balance: true, value: b, why: format!("balance cell {:?}", g(2)) });
             }
-            Rendered { config, statement: st, ext: "csv", records: 2, expect, anchor_txn: Some(a_idx) }
+            Rendered { config, statement: st, ext: "csv", records: 2, expect, anchor_txn: Some(a_idx), payees: None }
         }
         Kind::CsvMulti => {
             let (amode, rmode) = g(6).split_once(' ').expect("conversion mode");
@@ -531,7 +539,7 @@ fn render(shape: &Shape, prec: Option<u8>, v: &Vals, swap: bool) -> Rendered {
                 g(8),
                 &csv_row(&["", "Sub-total", "", "", "", "", "", ""], ','),
             );
-            Rendered { config, statement: st, ext: "csv", records: 2, expect: vec![], anchor_txn: Some(a_idx) }
+            Rendered { config, statement: st, ext: "csv", records: 2, expect: vec![], anchor_txn: Some(a_idx), payees: None }
         }
         Kind::CsvTemplate => {
             let config = format!(
@@ -549,7 +557,7 @@ fn render(shape: &Shape, prec: Option<u8>, v: &Vals, swap: bool) -> Rendered {
                 g(8),
                 &csv_row(&["", "", "", "Sub-total", "", "", "", ""], ','),
             );
-            Rendered { config, statement: st, ext: "csv", records: 2, expect: vec![], anchor_txn: Some(a_idx) }
+            Rendered { config, statement: st, ext: "csv", records: 2, expect: vec![], anchor_txn: Some(a_idx), payees: None }
         }
         Kind::CamtText(k) => {
             let mut e = CamtEntry::plain();
@@ -564,7 +572,7 @@ fn render(shape: &Shape, prec: Option<u8>, v: &Vals, swap: bool) -> Rendered {
                 6 => e.addtl_ntry = g(1),
                 _ => unreachable!(),
             }
-            Rendered { config: camt_config(prec, CAMT_SOURCES[k].1, "Okane Bank (fee)"), statement: camt_doc(&ordered(e, CamtEntry::anchor(k), swap), Some("100"), Some("74.5")), ext: "xml", records: 3, expect: vec![], anchor_txn: Some(1 + a_idx) }
+            Rendered { config: camt_config(prec, CAMT_SOURCES[k].1, "Okane Bank (fee)"), statement: camt_doc(&ordered(e, CamtEntry::anchor(k), swap), Some("100"), Some("74.5")), ext: "xml", records: 3, expect: vec![], anchor_txn: Some(1 + a_idx), payees: None }
         }
         Kind::CamtEntryOnly => {
             let mut e = CamtEntry::plain();
@@ -572,7 +580,7 @@ fn render(shape: &Shape, prec: Option<u8>, v: &Vals, swap: bool) -> Rendered {
             e.addtl_ntry = g(0);
             e.amt = g(1);
             e.entry_charge = v[2].map(|a| (a, true));
-            Rendered { config: camt_config(prec, "additional_entry_info", g(3)), statement: camt_doc(&ordered(e, CamtEntry::anchor(6), swap), Some("100"), Some("74.5")), ext: "xml", records: 3, expect: vec![], anchor_txn: Some(1 + a_idx) }
+            Rendered { config: camt_config(prec, "additional_entry_info", g(3)), statement: camt_doc(&ordered(e, CamtEntry::anchor(6), swap), Some("100"), Some("74.5")), ext: "xml", records: 3, expect: vec![], anchor_txn: Some(1 + a_idx), payees: None }
         }
         Kind::CamtNum => {
             let mut e = CamtEntry::plain();
@@ -583,7 +591,7 @@ fn render(shape: &Shape, prec: Option<u8>, v: &Vals, swap: bool) -> Rendered {
             e.tx_charge = v[5].map(|a| (a, true));
             e.entry_charge = v[6].map(|a| (a, false));
             let records = 2 + if v[7].is_some() { 1 } else { 0 };
-            Rendered { config: camt_config(prec, "creditor_name", g(9)), statement: camt_doc(&ordered(e, CamtEntry::anchor(0), swap), v[7], v[8]), ext: "xml", records, expect: vec![], anchor_txn: Some(records - 2 + a_idx) }
+            Rendered { config: camt_config(prec, "creditor_name", g(9)), statement: camt_doc(&ordered(e, CamtEntry::anchor(0), swap), v[7], v[8]), ext: "xml", records, expect: vec![], anchor_txn: Some(records - 2 + a_idx), payees: None }
         }
         Kind::VisecaBasic => {
             let mut t = format!("04.01.24 05.01.24 {} {}{}\n", g(0), g(2), g(3));
@@ -592,7 +600,7 @@ fn render(shape: &Shape, prec: Option<u8>, v: &Vals, swap: bool) -> Rendered {
                 t.push('\n');
             }
             let st = assemble("", &t, VISECA_ANCHOR, swap, "", "");
-            Rendered { config: viseca_config(prec, "Okane Card (fee)"), statement: st, ext: "txt", records: 2, expect: vec![], anchor_txn: Some(a_idx) }
+            Rendered { config: viseca_config(prec, "Okane Card (fee)"), statement: st, ext: "txt", records: 2, expect: vec![], anchor_txn: Some(a_idx), payees: None }
         }
         Kind::VisecaFx => {
             let mut t = format!("04.01.24 05.01.24 {} {} {} {}{}\nService stations\n", g(0), g(1), g(2), g(3), g(8));
@@ -603,7 +611,7 @@ fn render(shape: &Shape, prec: Option<u8>, v: &Vals, swap: bool) -> Rendered {
                 t.push_str(&format!("{} 1.75% CHF {}\n", g(6), g(7)));
             }
             let st = assemble("", &t, VISECA_ANCHOR, swap, "", "");
-            Rendered { config: viseca_config(prec, g(9)), statement: st, ext: "txt", records: 2, expect: vec![], anchor_txn: Some(a_idx) }
+            Rendered { config: viseca_config(prec, g(9)), statement: st, ext: "txt", records: 2, expect: vec![], anchor_txn: Some(a_idx), payees: None }
         }
     }
 }
@@ -754,7 +762,21 @@ impl<'a> CamtEntry<'a> {
 }
 
 fn camt_doc(entries: &[CamtEntry], opening: Option<&str>, closing: Option<&str>) -> String {
-    let mut s = String::from("<?xml version=\"1.0\" encoding=\"UTF-8\"?>\n<Document xmlns=\"urn:iso:std:iso:20022:tech:xsd:camt.053.001.04\">\n<BkToCstmrStmt>\n<Stmt>\n<Id>1</Id>\n");
+    camt_multi_doc(&[(entries, opening, closing)])
+}
+
+/// A document with any number of `Stmt` elements: (entries, opening balance, closing balance) each.
+fn camt_multi_doc(stmts: &[(&[CamtEntry], Option<&str>, Option<&str>)]) -> String {
+    let mut s = String::from("<?xml version=\"1.0\" encoding=\"UTF-8\"?>\n<Document xmlns=\"urn:iso:std:iso:20022:tech:xsd:camt.053.001.04\">\n<BkToCstmrStmt>\n<GrpHdr><MsgId>1</MsgId></GrpHdr>\n");
+    for (i, (entries, opening, closing)) in stmts.iter().enumerate() {
+        s.push_str(&camt_stmt(i + 1, entries, *opening, *closing));
+    }
+    s.push_str("</BkToCstmrStmt>\n</Document>\n");
+    s
+}
+
+fn camt_stmt(id: usize, entries: &[CamtEntry], opening: Option<&str>, closing: Option<&str>) -> String {
+    let mut s = format!("<Stmt>\n<Id>{}</Id>\n", id);
     let bal = |code: &str, a: &str| format!("<Bal><Tp><CdOrPrtry><Cd>{}</Cd></CdOrPrtry></Tp><Amt Ccy=\"CHF\">{}</Amt><CdtDbtInd>CRDT</CdtDbtInd><Dt><Dt>2024-01-01</Dt></Dt></Bal>\n", code, xml_escape(a));
     if let Some(o) = opening {
         s.push_str(&bal("OPBD", o));
@@ -765,7 +787,7 @@ fn camt_doc(entries: &[CamtEntry], opening: Option<&str>, closing: Option<&str>)
     for e in entries {
         s.push_str(&e.xml());
     }
-    s.push_str("</Stmt>\n</BkToCstmrStmt>\n</Document>\n");
+    s.push_str("</Stmt>\n");
     s
 }
 
@@ -918,6 +940,13 @@ fn judge_rendered(env: &Env, r: &Rendered, prec: Option<u8>, anchor_reference: O
     // one transaction per statement record
     if trees.len() != r.records {
         return Judgement::Bad { clause: "record-count".into(), detail: show(format!("the statement holds {} records but the importer built {} transactions", r.records, trees.len())) };
+    }
+
+    if let Some(want) = &r.payees {
+        let got: Vec<String> = trees.iter().map(|t| t.payee.to_string()).collect();
+        if got != *want {
+            return Judgement::Bad { clause: "record-sequence".into(), detail: show(format!("the records of the document are {:?} in this order, but the importer built {:?}", want, got)) };
+        }
     }
 
     // ---- numbers dictated by the statement cells (independent reference) ----
@@ -1294,7 +1323,7 @@ fn layout_render(c: &LayoutCase) -> Rendered {
             let mut st = csv_row(&["date", "payee", "amount", "balance"], ',');
             st.push_str(&csv_row(&["2024-03-01", "City Power", c.amount, if c.balance { "100" } else { "" }], ','));
             st.push_str(&csv_row(&["2024-03-02", "Migros Grocery", "-20.5", ""], ','));
-            Rendered { config, statement: st, ext: "csv", records: 2, expect: vec![], anchor_txn: None }
+            Rendered { config, statement: st, ext: "csv", records: 2, expect: vec![], anchor_txn: None, payees: None }
         }
         "xml" => {
             let config = format!(
@@ -1310,7 +1339,7 @@ fn layout_render(c: &LayoutCase) -> Rendered {
             e.debit = c.flip;
             let closing = if c.balance { Some("74.5") } else { None };
             let records = 3;
-            Rendered { config, statement: camt_doc(&[e, CamtEntry::anchor(0)], Some("100"), closing), ext: "xml", records, expect: vec![], anchor_txn: None }
+            Rendered { config, statement: camt_doc(&[e, CamtEntry::anchor(0)], Some("100"), closing), ext: "xml", records, expect: vec![], anchor_txn: None, payees: None }
         }
         _ => {
             let config = format!(
@@ -1321,7 +1350,7 @@ fn layout_render(c: &LayoutCase) -> Rendered {
                 pending
             );
             let st = format!("04.01.24 05.01.24 City Power {}{}\nUtilities\n10.01.24 11.01.24 Migros Grocery 20.50\nGrocery stores\n", c.amount, if c.flip { " -" } else { "" });
-            Rendered { config, statement: st, ext: "txt", records: 2, expect: vec![], anchor_txn: None }
+            Rendered { config, statement: st, ext: "txt", records: 2, expect: vec![], anchor_txn: None, payees: None }
         }
     }
 }
@@ -1426,6 +1455,104 @@ fn layout_cases(thorough: bool) -> Vec<LayoutCase> {
     v
 }
 
+
+// ------------------------------------------------------------------------------------------------
+// Multi-statement Camt053 documents: 0..=3 `Stmt` elements and 0..=N plain entries distributed over them in
+// every way (N = 4 quick, 5 thorough), each statement with a closing balance and with/without an opening
+// balance. One transaction per entry (plus one opening-balance transaction per non-empty statement that has an
+// opening balance), in document order; same round-trip oracle.
+
+#[derive(Clone, Debug)]
+struct MultiStmtCase {
+    stmts: usize,
+    /// statement index of every entry (entries keep their document order inside a statement)
+    assign: Vec<usize>,
+    opening: bool,
+    pi: usize,
+}
+
+fn multi_stmt_cases(max_entries: usize) -> Vec<MultiStmtCase> {
+    let mut v = vec![];
+    for stmts in 0..=3usize {
+        for n in 0..=max_entries {
+            if stmts == 0 && n > 0 {
+                continue;
+            }
+            let combos = if n == 0 { 1 } else { stmts.pow(n as u32) };
+            for code in 0..combos {
+                let mut assign = vec![];
+                let mut x = code;
+                for _ in 0..n {
+                    assign.push(x % stmts.max(1));
+                    x /= stmts.max(1);
+                }
+                for opening in [true, false] {
+                    for pi in 0..2 {
+                        v.push(MultiStmtCase { stmts, assign: assign.clone(), opening, pi });
+                    }
+                }
+            }
+        }
+    }
+    v
+}
+
+fn multi_stmt_render(c: &MultiStmtCase) -> Rendered {
+    let prec = PRECS[c.pi];
+    let n = c.assign.len();
+    let refs: Vec<String> = (0..n).map(|j| format!("20240101/{}/1", j + 1)).collect();
+    let names: Vec<String> = (0..n).map(|j| format!("Shop {}", j + 1)).collect();
+    let amounts: Vec<String> = (0..n).map(|j| format!("{}.5", j + 1)).collect();
+    let days: Vec<String> = (0..n).map(|j| format!("2024-01-{:02}", j + 2)).collect();
+    let closings: Vec<String> = (0..c.stmts).map(|s| format!("9{}.5", s)).collect();
+    let mut per_stmt: Vec<Vec<CamtEntry>> = vec![vec![]; c.stmts];
+    let mut payees: Vec<Vec<String>> = vec![vec![]; c.stmts];
+    for j in 0..n {
+        let mut e = CamtEntry::plain();
+        e.refr = Some(&refs[j]);
+        e.cdtr = Some(&names[j]);
+        e.amt = &amounts[j];
+        e.day = &days[j];
+        e.booked = &days[j];
+        per_stmt[c.assign[j]].push(e);
+        payees[c.assign[j]].push(names[j].clone());
+    }
+    let mut want: Vec<String> = vec![];
+    for s in 0..c.stmts {
+        if c.opening && !payees[s].is_empty() {
+            want.push("Initial Balance".into());
+        }
+        want.extend(payees[s].iter().cloned());
+    }
+    let stmts: Vec<(&[CamtEntry], Option<&str>, Option<&str>)> = (0..c.stmts).map(|s| (per_stmt[s].as_slice(), if c.opening { Some("100") } else { None }, Some(closings[s].as_str()))).collect();
+    Rendered { config: camt_config(prec, "creditor_name", "Okane Bank (fee)"), statement: camt_multi_doc(&stmts), ext: "xml", records: want.len(), expect: vec![], anchor_txn: None, payees: Some(want) }
+}
+
+fn multi_stmt_describe(c: &MultiStmtCase) -> String {
+    let r = multi_stmt_render(c);
+    format!("multi-statement Camt053 document: {} statements, {} entries assigned to statements {:?}, opening balance {}, precision {:?}\n--- config ---\n{}--- statement (.xml) ---\n{}", c.stmts, c.assign.len(), c.assign, c.opening, PRECS[c.pi], r.config, r.statement)
+}
+
+fn multi_stmt_outcome(env: &Env, c: &MultiStmtCase) -> Outcome {
+    let r = multi_stmt_render(c);
+    let j = match crate::fw::guarded(|| judge_rendered(env, &r, PRECS[c.pi], None)) {
+        Ok(j) => j,
+        Err(sig) if sig.contains("harness bug") => panic!("{}", sig),
+        Err(sig) => Judgement::Bad { clause: format!("crash/{}", sig), detail: "panic while importing this statement".into() },
+    };
+    let used = {
+        let mut u: Vec<usize> = c.assign.clone();
+        u.sort();
+        u.dedup();
+        u.len()
+    };
+    match j {
+        Judgement::Rejected(cl) => Outcome::dont_care(format!("multi-statement/{}/{}-statements", cl, c.stmts)),
+        Judgement::Ok { class, .. } => Outcome::pass(format!("multi-statement/{}-statements/{}-non-empty/{}", c.stmts, used, if r.records == 0 { "no-transaction".to_string() } else { class })),
+        Judgement::Bad { clause, detail } => Outcome::violation(format!("{}/camt-multi-statement", clause), detail),
+    }
+}
+
 fn run(ctx: &mut Ctx) {
     let env = Env { shapes: shapes(), dir: oka::scratch_dir("c15"), memo: RefCell::new(HashMap::new()), last_config: RefCell::new(String::new()), runs: RefCell::new(0), compared: RefCell::new(0) };
     let maxdev = ctx.tier.pick(2usize, 3usize);
@@ -1491,4 +1618,18 @@ fn run(ctx: &mut Ctx) {
         }
     }
     ctx.fact("swapped_order_cases", swapped);
+    // ---- multi-statement Camt053 documents ----
+    let multi = multi_stmt_cases(ctx.tier.pick(4usize, 5usize));
+    ctx.fact("multi_statement_cases", multi.len() as u64);
+    for c in &multi {
+        if !ctx.next_is_mine() {
+            ctx.skip_cases(1);
+            continue;
+        }
+        let (r0, c0) = (*env.runs.borrow(), *env.compared.borrow());
+        ctx.case(|| multi_stmt_describe(c), || multi_stmt_outcome(&env, c));
+        let (r1, c1) = (*env.runs.borrow(), *env.compared.borrow());
+        ctx.count("states", r1 - r0);
+        ctx.count("transitions", c1 - c0);
+    }
 }
